@@ -115,6 +115,9 @@ def main():
     for fidx in range(n_frames):
         nrows = int(rng.integers(8, 60))
         vals = ['', 'a', 'b', 'ü', '0', '00', 'x y']
+        if fidx % 3 == 1:
+            # values are compared as they are: blanks around them, case and zero padding distinguish categories
+            vals = ['a', 'a ', ' a', 'A', '', ' ', '0', '0.0', 'a\t']
         cols = ['f1', 'f2', 'f3']
         cols.insert(int(rng.integers(0, 4)), 'label')
         df = pd.DataFrame({c: rng.choice(vals[:int(rng.integers(2, len(vals) + 1))], nrows) for c in cols})
